@@ -92,6 +92,14 @@ def consistent_map(r, names, required):
     return out
 
 
+def map_entries(o):
+    """the (field id, result) entries of an overlay's map in the order the providers are consulted: a map given as an
+    iterable of several dicts (spelling "split") lists a shadowed tail after its head"""
+    out = list(o["map"].items())
+    out += list(o.get("map_tail", {}).items())
+    return out
+
+
 def gen_overlay(r, names, first, has_rest, required=None):
     o = {}
     c = r.random()
@@ -99,6 +107,18 @@ def gen_overlay(r, names, first, has_rest, required=None):
         o["map"] = {n: gen_map_result(r) for n in r.sample(names, r.randint(0, len(names)))}
     elif c < 0.75:
         o["map"] = consistent_map(r, names, required or [])
+    if o.get("map") and r.random() < 0.6:
+        # how the map is spelled in Python: one dict (default), an iterable of (id, result) pairs, an iterable of
+        # one-key dicts, or two dicts the second of which repeats keys of the first with OTHER results (never used:
+        # "only the first element matched is used") and may add further keys
+        o["map_spelling"] = r.choice(["pairs", "dicts", "split", "split"])
+        if o["map_spelling"] == "split":
+            keys = list(o["map"])
+            shadow = r.sample(keys, r.randint(1, len(keys)))
+            o["map_tail"] = {n: gen_map_result(r) for n in shadow}
+            for n in names:
+                if n not in o["map"] and r.random() < 0.3:
+                    o["map_tail"][n] = r.choice(KEY_POOL)
     if r.random() < 0.3:
         o["name_style"] = r.choice(STYLES + [None])
     if r.random() < 0.25:
@@ -164,6 +184,14 @@ CORPUS = [
      "has_rest": False},
     {"fields": [(0, "a", True, 50), (1, "b_c", False, 51)],
      "stack": [{"map": {"a": "k1"}, "only": ["a"]}, {"map": {"a": "k2", "b_c": "k3"}, "skip": ["a"], "only": ["a", "b_c"]}], "has_rest": False},
+    # a map given as two dicts: the second repeats keys of the first (never used) and adds one
+    {"fields": [(0, "a", True, 50), (1, "b_c", True, 51), (2, "q", False, 52)],
+     "stack": [{"map": {"a": "k1", "b_c": ("n", "k2")}, "map_spelling": "split", "map_tail": {"a": "k3", "b_c": None, "q": ("n", "k4")}}],
+     "has_rest": False},
+    {"fields": [(0, "a", True, 50), (1, "b_c", True, 51)],
+     "stack": [{"map": {"a": DOTS, "b_c": "k2"}, "map_spelling": "pairs", "name_style": "UPPER"}], "has_rest": False},
+    {"fields": [(0, "a", True, 50), (1, "b_c", False, 51)],
+     "stack": [{"map": {"a": ("m", "k1"), "b_c": ("m", "k2")}, "map_spelling": "dicts", "omit_default": True}], "has_rest": False},
 ]
 
 
@@ -185,8 +213,19 @@ def build_recipe(prog, cls, saturated):
         kw = {}
         for k, v in o.items():
             if k == "map":
-                kw["map"] = {n: (Ellipsis if res == DOTS else tuple(Ellipsis if x == DOTS else x for x in res) if isinstance(res, tuple) else res)
-                             for n, res in v.items()}
+                def conv(res):
+                    return (Ellipsis if res == DOTS else tuple(Ellipsis if x == DOTS else x for x in res) if isinstance(res, tuple) else res)
+                sp = o.get("map_spelling", "dict")
+                if sp == "pairs":
+                    kw["map"] = [(n, conv(res)) for n, res in v.items()]
+                elif sp == "dicts":
+                    kw["map"] = [{n: conv(res)} for n, res in v.items()]
+                elif sp == "split":
+                    kw["map"] = [{n: conv(res) for n, res in v.items()}, {n: conv(res) for n, res in o["map_tail"].items()}]
+                else:
+                    kw["map"] = {n: conv(res) for n, res in v.items()}
+            elif k in ("map_spelling", "map_tail"):
+                continue
             elif k == "name_style":
                 kw[k] = None if v is None else getattr(NameStyle, v)
             elif k == "extra_in":
@@ -221,7 +260,7 @@ def coq_overlay(o):
     m = o.get("map")
     omit = o.get("omit_default")
     xin = o.get("extra_in")
-    return ("{| o_map := " + coq_opt(m, lambda m: coq_list([f"{{| e_names := [{coq_str(n)}]; e_res := {coq_res(res)} |}}" for n, res in m.items()]))
+    return ("{| o_map := " + coq_opt(m, lambda m: coq_list([f"{{| e_names := [{coq_str(n)}]; e_res := {coq_res(res)} |}}" for n, res in map_entries(o)]))
             + "; o_trim := " + coq_opt(o.get("trim_trailing_underscore"), lambda b: "true" if b else "false")
             + "; o_style := " + ("None" if "name_style" not in o else
                                  "(Some " + ("None" if o["name_style"] is None else f"(Some {COQ_STYLE[o['name_style']]})") + ")")
@@ -364,7 +403,12 @@ def spec_paths(prog, output):
     style = effective(prog, "name_style", None)
     skip = effective(prog, "skip", [])
     only = effective(prog, "only", None)
-    maps = [o["map"] for o in prog["stack"] if "map" in o]
+    maps = []
+    for o in prog["stack"]:
+        if "map" in o:
+            maps.append(o["map"])
+            if "map_tail" in o:
+                maps.append(o["map_tail"])
     out = {}
     for idx, (i, n, req, d) in enumerate(prog["fields"]):
         if as_list:
@@ -550,6 +594,92 @@ def inputs_for(prog, paths, r, tier):
 
 # ----------------------------------------------------------------------------------------------------------------------
 
+def location_layouts_oracle(rep, r, tier, stats):
+    """One retort; the same model reachable at two locations, each location given its own name_mapping by a location
+    predicate (P[Outer].field).  At each location the model must be loaded and dumped exactly as it is, on its own,
+    under that provider's configuration - whichever location is used first (the layouts of the two locations differ in
+    as little as one omit_default flag, so anything that confuses them - a cache keyed by an incomplete notion of layout
+    equality - shows)."""
+    from dataclasses import dataclass
+
+    from adaptix import NameStyle, P, Retort, name_mapping
+    from adaptix.load_error import LoadError
+
+    @dataclass
+    class M:
+        a: int
+        b_c: int = 51
+        q: int = 52
+
+    @dataclass
+    class O1:
+        p: M
+
+    @dataclass
+    class O2:
+        p: M
+        z: int = 0
+
+    variants = [
+        {}, {"omit_default": True}, {"omit_default": ["q"]}, {"omit_default": ["b_c"]}, {"name_style": NameStyle.UPPER},
+        {"name_style": NameStyle.CAMEL}, {"map": {"a": "k1"}}, {"map": {"a": ("n", "k1")}}, {"map": {"b_c": ("n", "k1")}, "omit_default": True},
+        {"as_list": True}, {"skip": ["q"]}, {"only": ["a", "b_c"]}, {"map": {"q": None}}, {"map": [("a", "k1"), ("a", "k2")]},
+        {"omit_default": True, "name_style": NameStyle.UPPER}, {"map": {"a": ("n", 0), "b_c": ("n", 1)}},
+    ]
+    objs = [M(1), M(2, 3, 4), M(5, 51, 9), M(6, 7, 52)]
+
+    def outcome(f, *a):
+        try:
+            return ("ok", f(*a))
+        except LoadError as e:
+            return ("le", type(e).__name__)
+        except Exception as e:  # noqa: BLE001
+            return ("x", type(e).__name__)
+
+    n_pairs = 40 if tier == "quick" else 240
+    reported = set()
+    n = 0
+    pairs = [(i, j) for i in range(len(variants)) for j in range(len(variants)) if i != j]
+    r.shuffle(pairs)
+    for i, j in pairs[:n_pairs]:
+        kw = [variants[i], variants[j]]
+        outers = [O1, O2]
+        refs = [Retort(recipe=[name_mapping(M, **k)]) for k in kw]
+        ref_dumps = [[outcome(refs[x].dump, o) for o in objs] for x in (0, 1)]
+        for order in ((0, 1), (1, 0)):
+            for first_op in ("dump", "load"):
+                rt = Retort(recipe=[name_mapping(P[O1].p, **kw[0]), name_mapping(P[O2].p, **kw[1])])
+                for x in order:
+                    ops = ("dump", "load") if first_op == "dump" else ("load", "dump")
+                    for op in ops:
+                        for oi, o in enumerate(objs):
+                            n += 1
+                            rd = ref_dumps[x][oi]
+                            if op == "dump":
+                                got = outcome(rt.dump, outers[x](p=o))
+                                want = ("ok", {"p": rd[1], **({"z": 0} if x == 1 else {})}) if rd[0] == "ok" else rd
+                            else:
+                                # the data written under EITHER configuration, read at location x: as the model alone reads it
+                                src = ref_dumps[(x + oi) % 2][oi]
+                                if src[0] != "ok":
+                                    continue
+                                want_in = outcome(refs[x].load, src[1], M)
+                                got = outcome(rt.load, {"p": src[1]}, outers[x])
+                                want = ("ok", outers[x](p=want_in[1])) if want_in[0] == "ok" else want_in
+                            ok = got == want or (got[0] == want[0] == "le")
+                            sig = f"location-layout:{op}:{'second' if x != order[0] else 'first'}-location"
+                            if not ok and sig not in reported:
+                                reported.add(sig)
+                                rep.violation(sig, "property-violated",
+                                              {"what": "a model reached at two locations with different name_mapping providers: at one "
+                                                       "location it is not handled as the model alone is under that configuration",
+                                               "configurations": [repr(kw[0]), repr(kw[1])], "location": outers[x].__name__,
+                                               "first_used_location": outers[order[0]].__name__, "operation": op, "object": repr(o),
+                                               "got": repr(got)[:300], "expected": repr(want)[:300]})
+    stats["location_layout_checks"] = n
+    return n
+
+
 def run(rep, tier, seed):
     from adaptix import DebugTrail, ProviderNotFoundError, Retort
     from adaptix.load_error import LoadError
@@ -659,6 +789,7 @@ def run(rep, tier, seed):
                 dmeta.append(dict(info, objects=[repr(o) for o in objs], observed=outs))
         if len(samples) < 3 and pi % 23 == 4:
             samples.append({"fields": prog["fields"], "stack": repr(prog["stack"])[:300]})
+    location_layouts_oracle(rep, r, tier, stats)
     hdr = "From AV Require Import Model.NameStyle Model.Layout Model.CrownSem Model.CrownShow.\nOpen Scope string_scope."
     ev = CoqEval(PID, hdr, "(fun c => match c with (st, fs, md, ins) => run_loads st fs md ins end)", shard=40)
     for idx, got in ev.compare(lcases):
@@ -687,7 +818,7 @@ def run(rep, tier, seed):
     for k, err in ev2.errors:
         rep.violation("coq-eval-error:dump", "harness-error", {"what": err[-1500:]}, no_input=True)
     rep.cov.update({
-        "evaluations": stats["loads"] + stats["wrong_kind_inputs"] + stats["dumps"] + stats["sentinel_checks"],
+        "evaluations": stats["loads"] + stats["wrong_kind_inputs"] + stats["dumps"] + stats["sentinel_checks"] + stats.get("location_layout_checks", 0),
         "distinct_nontrivial": stats["programs"],
         "rule": "programs: dataclass with 1-4 int fields from 12 snake-case names (trailing underscores, private, digits), "
                 "required / defaulted, optionally an extra target field; a stack of 1-2 name_mapping providers, each with a random "
